@@ -5,7 +5,10 @@ extracted Coq encoder (vm `merge xlsx` / `merge xls`) turns it into XML parts / 
 answers with M (the model of calamine's functions on those parts), S (what the file declares) and
 the extracted known_C17 / legal / dom.  The parts are packed into a real .xlsx / .xls and read
 back through the public API (vh `open …`, `merge tableref`).  i vs m is the tie, i vs s on legal
-in-domain cases is the search for a failing input.
+in-domain cases is the search for a failing input.  No known class is left: every legal in-domain
+case — both relationship type URIs, "../" and absolute targets, names spelled with entities and
+character references, insertRow in every xsd:boolean spelling, tables without data rows, tables
+in row 1 — is compared with S; the witnesses of the five retired classes are corpus regressions.
 Hook cases: get_dimension and xls parse_merge_cells on raw bytes (valid, boundary, malformed)."""
 import json, os, random
 import vlib, mergegen
@@ -119,6 +122,21 @@ def run_xlsx_cases(ctx, cases, tag):
             ctx.count("table-vs-used-range:" + tp)
         for th in info.get("thdr", []):
             ctx.count("table-rows:" + th)
+        for tf in info.get("tforms", []):
+            for w in tf.split(" "):
+                ctx.count("table-form:" + w)
+        for pc in info.get("pieces", []):
+            ctx.count("name-piece:" + {"L": "literal", "N": "named-entity", "D": "decimal-ref", "H": "hex-ref",
+                                        "U": "HEX-ref"}.get(pc, pc))
+        # the generator's idea of the table names must be the model's (S lists them in `tables`)
+        if legal and dom and c.get("structured", True) and info.get("tnames") is not None:
+            cs, sa = split_calls(c["calls"], s)
+            for k2, cl in enumerate(cs):
+                if cl == "tables" and k2 < len(sa):
+                    want = ",".join(hx(tn) for tn in info["tnames"])
+                    if sa[k2] != want:
+                        ctx.disagreements.append({"function": "generator-names", "case": case,
+                                                  "impl": want, "model": sa[k2]})
         if impl.get(lid, "").endswith("panic"):
             ctx.count("xlsx-panic")
         ctx.sample({"case": c["desc"][:160] + "…", "calls": c["calls"][:80] + "…", "impl_equals_model": impl.get(lid) == m,
@@ -143,9 +161,10 @@ def bucket(n):
     return str(n) if n < 4 else ("4-9" if n < 10 else "10+")
 
 
-def one_table_case(name="T1", ref=(1, 1, 4, 2), header=1, totals=1, cols=("a", "b"), target="D", typ="T",
-                   insert="-", cells=None, refstyle="P", regions=(), sheet="S1"):
-    """a one-sheet workbook with one table, every other choice at its default"""
+def one_table_case(name="T1", ref=(1, 1, 4, 2), header=1, totals=1, ins=0, cols=("a", "b"), target="D", typ="T",
+                   insert="-", cells=None, refstyle="P", regions=(), sheet="S1", name_sp=None, cols_sp=None):
+    """a one-sheet workbook with one table, every other choice at its default; names are escaped
+    the usual way unless a spelling (cmd_merge.ml parse_spelling) is given"""
     cells = cells if cells is not None else {(0, 0): 7, (2, 1): 5, (3, 2): 6}
     pre = [("R", DECL), ("S", "worksheet", [("xmlns", NS_MAIN), ("xmlns:r", NS_REL)]), ("S", "sheetData", [])]
     for r in sorted({r for r, _ in cells}):
@@ -160,10 +179,11 @@ def one_table_case(name="T1", ref=(1, 1, 4, 2), header=1, totals=1, cols=("a", "
             "PRE", mergegen.events_wire(pre), "POST", mergegen.events_wire(post)]
     for b in regions:
         toks += ["RG", str(b[0]), str(b[1]), str(b[2]), str(b[3]), "P", "0", "-", "-", "-"]
-    toks += ["TB", xs(name), str(ref[0]), str(ref[1]), str(ref[2]), str(ref[3]), str(header), str(totals),
-             xs("table1.xml"), xs("rId1"), target, typ, "0", refstyle, "0", "0", "0", insert,
+    csp = cols_sp if cols_sp is not None else [xs(c) for c in cols]
+    toks += ["TB", name_sp or xs(name), str(ref[0]), str(ref[1]), str(ref[2]), str(ref[3]), str(header), str(totals),
+             str(ins), xs("table1.xml"), xs("rId1"), target, typ, "0", refstyle, "0", "0", "0", insert,
              mergegen.attrs_wire([("xmlns", NS_MAIN), ("id", "1")]), "-", "-", mergegen.events_wire([("R", DECL)]),
-             ",".join(xs(c) for c in cols) if cols else "-"]
+             ",".join(csp) if csp else "-"]
     for (r, c) in sorted(cells):
         toks += ["CL", str(r), str(c), str(cells[(r, c)])]
     calls = ["merges " + hx(sheet), "mergesat 0", "mergesby " + hx(sheet), "allmerges", "tables",
@@ -173,13 +193,16 @@ def one_table_case(name="T1", ref=(1, 1, 4, 2), header=1, totals=1, cols=("a", "
             "pack_seed": None, "tableref": True, "profile": "corpus"}
 
 
-# the witnesses of the known classes (as in Merge_proofs.v) and the corner cases asked for
+# the witnesses of the five classes of the first round (EscapedText, AbsoluteTarget, StrictType,
+# InsertRowFalse, EmptyData).  The defects were repaired (branch c17-fixes); the witnesses stay as
+# regressions and are compared with the SPEC like every other case.
 WITNESSES = {
     "EscapedText": one_table_case(cols=("P&L", "b")),
     "AbsoluteTarget": one_table_case(target="A"),
     "StrictType": one_table_case(typ="S"),
     "InsertRowFalse": one_table_case(insert="f"),
     "EmptyData": one_table_case(ref=(1, 1, 1, 2), header=1, totals=0),
+    "EmptyData-totals-row1": one_table_case(header=0, totals=1, ref=(0, 0, 0, 1)),
 }
 CORPUS = [
     one_table_case(regions=((0, 0, 1, 1), (1048575, 16383, 1048575, 16383), (2, 26, 3, 702))),
@@ -190,19 +213,31 @@ CORPUS = [
     one_table_case(cells={}, ref=(0, 0, 3, 1)),                                 # sheet without cells
     one_table_case(ref=(1048570, 16380, 1048575, 16383), cells={(1048573, 16381): 9}),   # the far corner
     one_table_case(header=0, totals=0, ref=(5, 5, 5, 5), cols=("x",), refstyle="S"),     # one-cell table, ref="F6"
-    one_table_case(header=0, totals=1, ref=(0, 0, 0, 1)),                       # totals row only at row 1: EmptyData, load panics
     one_table_case(name="Tä", cols=("Größe", "列", "")),
     one_table_case(insert="0"),
+    # every xsd:boolean spelling of insertRow; true = the insert row of an empty table is showing
+    one_table_case(insert="1", ins=1, header=1, totals=0, ref=(1, 1, 2, 2)),
+    one_table_case(insert="t", ins=1, header=1, totals=0, ref=(1, 1, 2, 2)),
+    one_table_case(insert="t", ins=1, header=0, totals=0, ref=(0, 0, 0, 1)),    # only the insert row, in row 1
+    one_table_case(insert="1", ins=1, header=0, totals=1, ref=(0, 0, 1, 1)),    # totals + insert row from row 1
+    one_table_case(insert="t", ins=1, header=1, totals=1, ref=(0, 0, 3, 1)),    # header, one data row, insert, totals
+    one_table_case(header=1, totals=1, ref=(0, 0, 1, 1)),                       # header + totals, no data, row 1
+    one_table_case(header=1, totals=0, ref=(0, 2, 0, 3)),                       # header only, row 1
+    one_table_case(header=1, totals=1, ref=(1048574, 0, 1048575, 1)),           # no data rows at the bottom edge
+    # names with every XML-special character, in every legal spelling
+    one_table_case(name="P&L", cols=('<&>"\'', "a;b&c;", "&amp;", "x\ny")),
+    one_table_case(name="P&L", name_sp="pL50+D38.2+L4c", cols=("<", ">", "ä😀"),
+                   cols_sp=["pH60.2", "pN62", "pU228.4+H128512.8"]),
+    one_table_case(name="T&1", name_sp="pL54+N38+D49.5", cols=("'\"", "\t"), cols_sp=["pN39+N34", "pD9.1"]),
+    one_table_case(target="A", typ="S", insert="f", cols=("P&L", "b")),         # all formerly-known forms at once
 ]
 
 
 def run_witnesses(ctx):
     names = list(WITNESSES)
-    run_xlsx_cases(ctx, [WITNESSES[n] for n in names], "w")
     for n in names:
-        if ctx.known_finding(n) is not None and n not in ctx.known_hits:
-            # a registered class whose witness no longer fails: the class must be retired (and M changed)
-            ctx.notes.append("known class %s: the witness no longer deviates from the declared geometry" % n)
+        WITNESSES[n].setdefault("structured", True)
+    run_xlsx_cases(ctx, [WITNESSES[n] for n in names], "w")
 
 
 # ------------------------------------------------------------------ xls
